@@ -47,16 +47,21 @@ def a(ck: Check) -> None:
     f = fm.f
     sd_p, node_p = f.params()[0], f.params()[1]
     rets = [n for n in f.node.body if isinstance(n, ast.Return) and isinstance(n.value, ast.Tuple)]
-    if not rets or not isinstance(rets[-1].value.elts[1], ast.Name):
+    if not rets or len(rets[-1].value.elts) != 2:
         raise AnalysisError("anchor vanished: final return of compute_attractors_symbolic")
-    out = rets[-1].value.elts[1].id
-    apps = [n for n in own_walk(f.node) if isinstance(n, ast.Call) and isinstance(n.func, ast.Attribute) and n.func.attr == "append"
-            and text(n.func.value) == out]
-    # element producers: `out.append(e)` in a loop, or `out = [e for x in ...]`
-    producers = [(ap.args[0], fm.cfgn(ap), None, f.stmt_of(ap)) for ap in apps]
-    for d, v in fm.value_defs(out, fm.cfgn(rets[-1])):
-        if isinstance(v, ast.ListComp):
-            producers.append((v.elt, d, v, d.ast))
+    out_e = rets[-1].value.elts[1]
+    producers = []
+    if isinstance(out_e, ast.Name):
+        out = out_e.id
+        apps = [n for n in own_walk(f.node) if isinstance(n, ast.Call) and isinstance(n.func, ast.Attribute) and n.func.attr == "append"
+                and text(n.func.value) == out]
+        # element producers: `out.append(e)` in a loop, or `out = [e for x in ...]`
+        producers = [(ap.args[0], fm.cfgn(ap), None, f.stmt_of(ap)) for ap in apps]
+        for d, v in fm.value_defs(out, fm.cfgn(rets[-1])):
+            if isinstance(v, ast.ListComp):
+                producers.append((v.elt, d, v, d.ast))
+    elif isinstance(out_e, ast.ListComp):
+        producers = [(out_e.elt, fm.cfgn(rets[-1]), out_e, rets[-1])]
     if not producers:
         raise AnalysisError("anchor vanished: conversion of attractor sets")
     # the reduced graph used for the reachability test
